@@ -351,6 +351,8 @@ def gen_config(rng, tier):
            # threshold in units of one scalar array (Nx*Ny*Nz*8 bytes); 0 = below the frozen total
            "thr_scalars": rng.choice(THRESHOLDS),
            "drop": []}
+    if name.startswith("sol:"):      # options consistent with the solution (matter present, Lambda = 0)
+        cfg["vacuum"], cfg["Lambda"] = False, 0.0
     # drop a few inputs (partial input sets, e.g. betay without betax)
     keys = [e if isinstance(e, str) else e[0] for e in INPUT_SETS[name]]
     if keys and name != "partial_shift" and rng.random() < 0.3:
@@ -376,7 +378,8 @@ def gen_ops(rng, nreq, keys):
         elif r < 0.97:
             ops.append(["cleanup"])
         elif r < 0.99:
-            ops.append(["custom", rng.choice(("custom_a", "custom_b", rng.choice(keys))),
+            # (a grid scalar is stored: only names whose consumers expect a scalar field)
+            ops.append(["custom", rng.choice(("custom_a", "custom_b", "press", "velx", "dtalpha")),
                         [rng.choice(keys) for _ in range(rng.randrange(0, 4))]])
         else:
             ops.append(["load", rng.sample(("alpha", "press", "velx", "dtalpha", "custom_a"), 2)])
@@ -416,21 +419,28 @@ def build(cfg):
 
 class Monitor:
     """Independent oracle on the real object: frozen entries stay, with the same
-    bytes; the age table only describes cached entries."""
+    bytes; the age table only describes cached entries.  What is frozen is
+    decided by the API contract, not by reading var_importance: everything in
+    `data` at a freeze_data()/load_data() call, every custom variable of the
+    time-series driver, every key the user gave importance 0 while cached —
+    until the user gives it a non-zero importance or overwrites it."""
 
     def __init__(self, rel):
         self.rel = rel
         self.frozen = {}
-        self.refresh()
 
-    def refresh(self, touched=()):
-        rel = self.rel
-        for k, v in rel.data.items():
-            if rel.var_importance.get(k, 1.0) == 0 and (k not in self.frozen or k in touched):
+    def freeze_all(self):
+        for k, v in self.rel.data.items():
+            if k not in self.frozen:
                 self.frozen[k] = (checksum(v), id(v))
-        for k in list(self.frozen):
-            if rel.var_importance.get(k, 1.0) != 0:
-                del self.frozen[k]
+
+    def freeze(self, keys):
+        for k in keys:
+            if k in self.rel.data:
+                self.frozen[k] = (checksum(self.rel.data[k]), id(self.rel.data[k]))
+
+    def unfreeze(self, k):
+        self.frozen.pop(k, None)
 
     def check(self, where):
         rel, out = self.rel, []
@@ -439,6 +449,8 @@ class Monitor:
                 out.append(("frozen key evicted", k, where))
             elif id(rel.data[k]) != oid or checksum(rel.data[k]) != cs:
                 out.append(("frozen key altered", k, where))
+            elif rel.var_importance.get(k, 1.0) != 0:
+                out.append(("frozen key has importance %r" % rel.var_importance.get(k, 1.0), k, where))
         extra = set(rel.last_accessed) - set(rel.data)
         if extra:
             out.append(("last_accessed describes uncached keys", sorted(extra), where))
@@ -454,6 +466,7 @@ def execute(cfg, ops, on_value=None):
     rel, fields = build(cfg)
     tr = rel._tr
     mon = Monitor(rel)
+    mon.freeze_all()          # build() ends with freeze_data()
     scalar = cfg["N"] ** 3 * 8
     fails = []
     with warnings.catch_warnings(), np.errstate(all="ignore"):
@@ -474,10 +487,13 @@ def execute(cfg, ops, on_value=None):
                     rel.h_set("thr", int(op[1] * scalar) / 2 ** 30)
                 elif op[0] == "imp":
                     rel.h_set(op[1], op[2])
-                    mon.refresh()
+                    if op[2] == 0:
+                        mon.freeze([op[1]])
+                    else:
+                        mon.unfreeze(op[1])
                 elif op[0] == "freeze":
                     rel.h_freeze()
-                    mon.refresh()
+                    mon.freeze_all()
                 elif op[0] == "cleanup":
                     rel.cleanup_cache()
                 elif op[0] == "custom":
@@ -488,13 +504,14 @@ def execute(cfg, ops, on_value=None):
                         if isinstance(x, np.ndarray) and x.shape[-3:] == rel.data_shape and x.dtype.kind == "f":
                             acc = acc + x.reshape((-1,) + rel.data_shape)[0]
                     rel.h_assign(op[1], acc, frozen=True)
-                    mon.refresh(touched=(op[1],))
+                    mon.freeze([op[1]])
                 elif op[0] == "load":
                     # load_data(sim_data, it): assignments, then freeze_data()
                     for k in op[1]:
                         rel.h_assign(k, fields.get(k, fields["alpha"]) * 1.5)
                     rel.h_freeze()
-                    mon.refresh(touched=tuple(op[1]))
+                    mon.freeze(op[1])
+                    mon.freeze_all()
             except RecursionError as ex:
                 fails.append(("RecursionError", op, i))
                 del tr.stack[:]
@@ -619,7 +636,7 @@ def run(ctx):
     if ctx.tier == "thorough":
         ctx.leanchecker([MODULE])
     rnd_correspondence(ctx, ctx.budget(300, 3000))
-    correspondence(ctx, "C03", ctx.budget(40, 400), ctx.budget(30, 80))
+    correspondence(ctx, "C03", ctx.budget(40, 200), ctx.budget(30, 60))
 
 
 def replay(ctx, obj):
